@@ -35,12 +35,17 @@ def plan(steps, trace):
     return meta, sends, cancels, stops
 
 
-def stop_times(trace):
+def stop_times(trace, exact=None):
+    """actor -> when it was first seen stopped: at the end of a scenario step, or - where the harness saw the actor's own
+    stop() complete (a runner thread stops its child between two steps) - at that instant"""
     out = {}
     for tr in trace:
         for i, r in enumerate(tr["running"]):
             if not r and i not in out:
                 out[i] = tr["t"]
+    for i, t in enumerate(exact or []):
+        if t is not None and i in out and t < out[i]:
+            out[i] = t
     return out
 
 
@@ -73,7 +78,7 @@ def monitor(steps, engine, res):
         # exactly one child per spawn
         out.append(("%d spawn actions executed, %d child actors were created and started" % (len(meta) - 1, len(trace[-1]["running"]) - 1), None))
         return out[:1]
-    stopped_at = stop_times(trace)
+    stopped_at = stop_times(trace, res.get("stopped"))
     where = {}
     for i, box in enumerate(inbox):
         for tag, t in box:
@@ -129,6 +134,9 @@ def monitor(steps, engine, res):
                  and (o["step"], o["oi"]) > (s["step"], s["oi"]) and o["t"] < due - 0.5]
         if any(not isinstance(clear_target(meta, o["sender"], o), int) for o in later):
             continue        # whether the later send with the same id was scheduled at all depends on an unclear address
+        if any(clear_target(meta, o["sender"], o) in stopped_at and stopped_at[clear_target(meta, o["sender"], o)] <= o["t"] + 0.5 for o in later):
+            continue        # ... or on whether an actor that had been stopped by then still resolved (normally it does not, and the
+            #                 later send is dropped with a warning instead of superseding this one)
         superseded = bool(later)
         if n_sent.get(s["tag"], 1) != 1:
             continue
